@@ -50,7 +50,7 @@ theorem C08_distinct (ops : List Op) : ((run ops).1.srvs.map (·.name)).Nodup :=
 /-- shape facts regenerated on this run -/
 theorem C08_shape : Gen.shape_tempdirDefault = true ∧ Gen.shape_serverOwnsBeforeBind = true ∧ Gen.shape_pathChecked = true ∧
     Gen.shape_acceptLingerThenRecv = true ∧ Gen.shape_acceptConsumesServer = true ∧ Gen.listenBacklog = 10 ∧
-    Gen.shape_rendezvousCloexec = true := by decide
+    Gen.shape_rendezvousCloexec = true ∧ Gen.shape_acceptOwnsBeforeLinger = true := by decide
 
 /-! non-vacuity: the client connects, sends 7 and 8 and exits before accept; accept returns 7, the receiver then yields 8 and
 reports disconnection; nothing is left -/
@@ -71,5 +71,32 @@ theorem C08_inproc_registry (ops : List InprocReg.Op) (n : Nat) :
     InprocReg.Res.panic ∉ (InprocReg.run InprocReg.fixed ops).2 ∧
     ((∀ k : Nat, (InprocReg.run InprocReg.fixed ops).1.phase[k]? ≠ some InprocReg.Phase.live) → (InprocReg.run InprocReg.fixed ops).1.reg = []) :=
   ⟨InprocReg.code_variant.1, (InprocReg.connect_spec ops n).1, InprocReg.no_panic ops, fun h => (InprocReg.clean ops h).1⟩
+
+/-- what one call of a blocking wait (`accept4`, the receive of the first message) answers -/
+inductive WaitAns (α : Type) | eintr | done (a : α)
+
+/-- the wait as `accept` performs it: `none` — still waiting; `some none` — an error passed on to the caller (who cannot retry:
+`accept` has consumed the server); `some (some a)` — the awaited connection / message -/
+def waitLoop {α : Type} (retry : Bool) : List (WaitAns α) → Option (Option α)
+  | [] => none
+  | .done a :: _ => some (some a)
+  | .eintr :: q => if retry then waitLoop retry q else some none
+
+theorem waitLoop_retry {α : Type} (n : Nat) (a : α) (rest : List (WaitAns α)) :
+    waitLoop true (List.replicate n .eintr ++ .done a :: rest) = some (some a) := by
+  induction n with
+  | zero => rfl
+  | succ n ih => simpa [List.replicate_succ, waitLoop] using ih
+
+/-- **C08_accept_survives_signals** — however many times a signal cuts the wait in `accept4` or the wait for the first message short (`EINTR`), `accept` still
+ends with the connection and its first message: both waits are repeated (regenerated: `shape_acceptRetriesEintr`).  Before the
+repair (D22) the first interruption made `accept` fail — with the server consumed, the rendezvous was lost. -/
+theorem C08_accept_survives_signals {α : Type} (n : Nat) (a : α) (rest : List (WaitAns α)) :
+    Gen.shape_acceptRetriesEintr = true ∧
+    waitLoop Gen.shape_acceptRetriesEintr (List.replicate n .eintr ++ .done a :: rest) = some (some a) := by
+  have h : Gen.shape_acceptRetriesEintr = true := by decide
+  exact ⟨h, by rw [h]; exact waitLoop_retry n a rest⟩
+
+example : waitLoop false [WaitAns.eintr, .done 5] = some none := by decide
 
 end C08
